@@ -211,6 +211,73 @@ pub fn confirm_and_minimise(exe: &Path, vf: &Path, dest: &Path) -> Option<Confir
     Some(Confirmed { path: dest.to_path_buf(), property, clause, minimised: false })
 }
 
+/// Last resort for a violation that reproduces neither alone nor after re-executing the
+/// earlier worlds of its process: re-run the *worker invocation itself* up to and including
+/// the world (same loop, same accounting, same files - hence the same allocation history).
+/// Returns true if the worker again writes a violation file for (property, run) with the
+/// same clause. This is what makes defects keyed on addresses reproducible.
+pub fn worker_rerun_reproduces(exe: &Path, j: &J, scratch: &Path) -> bool {
+    let get = |k: &str| j.get("worker_rerun").and_then(|w| w.get(k)).and_then(|v| v.as_u64()).or_else(|| j.get("worker").and_then(|w| w.get(k)).and_then(|v| v.as_u64()));
+    let (first, stride) = match (get("first"), get("stride")) {
+        (Some(f), Some(s)) => (f, s.max(1)),
+        _ => return false,
+    };
+    let run = match j.get("run").and_then(|v| v.as_u64()) {
+        Some(r) if r >= first => r,
+        _ => return false,
+    };
+    let count = (run - first) / stride + 1;
+    let property = j.get("property").and_then(|v| v.as_str()).unwrap_or("");
+    let clause = j.get("clause").and_then(|v| v.as_str()).unwrap_or("");
+    let profile = j.get("profile").and_then(|v| v.as_str()).unwrap_or("C19");
+    let seed = j.get("seed").and_then(|v| v.as_u64()).unwrap_or(1);
+    let _ = std::fs::remove_dir_all(scratch);
+    if std::fs::create_dir_all(scratch).is_err() {
+        return false;
+    }
+    let out = scratch.join("w");
+    let status = Command::new(exe)
+        .arg("worker")
+        .args(["--prop", profile])
+        .args(["--seed", &seed.to_string()])
+        .args(["--first", &first.to_string()])
+        .args(["--stride", &stride.to_string()])
+        .args(["--count", &count.to_string()])
+        .args(["--budget-ms", "7200000"])
+        .args(["--max-viol", "1000000"])
+        .args(["--out", out.to_str().unwrap_or("")])
+        .args(["--cpu", &(first % online_cpus().max(1) as u64).to_string()])
+        .stdout(Stdio::null())
+        .stderr(Stdio::null())
+        .status();
+    let ok = match status {
+        Ok(_) => {
+            let vf = format!("{}.viol-{}-{}.json", out.display(), property, run);
+            std::fs::read_to_string(&vf).ok().and_then(|t| json::parse(&t).ok()).map(|v| v.get("clause").and_then(|c| c.as_str()) == Some(clause)).unwrap_or(false)
+        }
+        Err(_) => false,
+    };
+    let _ = std::fs::remove_dir_all(scratch);
+    ok
+}
+
+fn confirm_by_worker_rerun(exe: &Path, j: &J, dest: &Path, property: String, clause: String) -> Option<Confirmed> {
+    let scratch = dest.with_extension("rerun.d");
+    if !worker_rerun_reproduces(exe, j, &scratch) {
+        return None;
+    }
+    let first = j.get("worker").and_then(|w| w.get("first")).and_then(|v| v.as_u64())?;
+    let stride = j.get("worker").and_then(|w| w.get("stride")).and_then(|v| v.as_u64())?.max(1);
+    let run = j.get("run").and_then(|v| v.as_u64())?;
+    let mut jj = j.clone();
+    jj.put("worker_rerun", J::obj().set("first", J::u(first)).set("stride", J::u(stride)).set("count", J::u((run - first) / stride + 1)));
+    jj.put("worker_rerun_note", J::s("this violation reproduces only inside the worker invocation that found it (same worlds, same accounting, same allocation history - typically state keyed on addresses): replay re-runs that worker slice and looks for the same (run, clause)"));
+    jj.put("minimised", J::Bool(false));
+    std::fs::write(dest, jj.to_pretty()).ok()?;
+    println!("reproduced by re-running the worker slice first={} stride={} up to run {}", first, stride, run);
+    Some(Confirmed { path: dest.to_path_buf(), property, clause, minimised: false })
+}
+
 fn confirm_with_prefix(exe: &Path, j: &J, vf: &Path, dest: &Path, property: String, clause: String) -> Option<Confirmed> {
     let first = j.get("worker").and_then(|w| w.get("first")).and_then(|v| v.as_u64())?;
     let stride = j.get("worker").and_then(|w| w.get("stride")).and_then(|v| v.as_u64())?.max(1);
@@ -222,7 +289,7 @@ fn confirm_with_prefix(exe: &Path, j: &J, vf: &Path, dest: &Path, property: Stri
         r += stride;
     }
     if runs.is_empty() {
-        return None;
+        return confirm_by_worker_rerun(exe, j, dest, property, clause);
     }
     let tmp = dest.with_extension("prefix.tmp");
     let try_prefix = |runs: &[u64]| -> bool {
@@ -235,7 +302,7 @@ fn confirm_with_prefix(exe: &Path, j: &J, vf: &Path, dest: &Path, property: Stri
     };
     if !try_prefix(&runs) {
         let _ = std::fs::remove_file(&tmp);
-        return None;
+        return confirm_by_worker_rerun(exe, j, dest, property, clause);
     }
     // delta-debug the prefix: drop chunks of earlier worlds while the violation persists
     let t0 = Instant::now();
@@ -303,6 +370,7 @@ pub fn write_evidence(prop: &str, tier: &str, seed: u64, st: &Stats, distinct: u
         .set("threads_per_world", st.group("threads"))
         .set("sites", st.group("sites"))
         .set("probes", st.group("probes"))
+        .set("max_searches_in_flight_on_one_object", J::u(st.get("max.inflight_same_regex_object")))
         .set("ops", st.group("ops"))
         .set("comparisons", st.group("cmp"))
         .set("reference_model", st.group("model"))
@@ -452,70 +520,135 @@ pub fn cmd_drive(args: &[String]) -> i32 {
         println!("HARNESS-ERROR: no world was executed");
         return 2;
     }
+    // Build-configuration strata: the same simulator linked against regress built with its
+    // optional cargo features (VERIF_ALT_BUILDS="name=exe,name=exe", set by ./check). Each
+    // stratum gets its own derived seed, so it explores other worlds than the default build.
+    let mut alt: Vec<(String, PathBuf, BatchResult)> = Vec::new();
+    if let Ok(spec) = std::env::var("VERIF_ALT_BUILDS") {
+        let alt_budget_ms = std::env::var("VERIF_ALT_BUDGET_S").ok().and_then(|s| s.parse::<u64>().ok()).map(|s| s * 1000).unwrap_or(if tier == "thorough" { 120_000 } else { 5_000 });
+        for (i, item) in spec.split(',').filter(|s| !s.is_empty()).enumerate() {
+            let (name, path) = match item.split_once('=') {
+                Some(x) => x,
+                None => continue,
+            };
+            let aexe = PathBuf::from(path);
+            let aseed = seed.wrapping_mul(1_000_003).wrapping_add(i as u64 + 1);
+            let ar = run_batch(&aexe, &prop, aseed, worlds, alt_budget_ms, nworkers, &workdir.join(format!("alt-{}", name)), &[]);
+            if ar.harness_error {
+                println!("HARNESS-ERROR: a worker of build stratum {} reported a harness error", name);
+                return 2;
+            }
+            if ar.stats.get("evaluations") == 0 && ar.crashed.is_empty() {
+                println!("HARNESS-ERROR: build stratum {} executed no world", name);
+                return 2;
+            }
+            println!("build stratum {}: seed={} worlds={} simulated_steps={} switches={} wall={:.1}s", name, aseed, ar.stats.get("evaluations"), ar.stats.get("simulated_steps"), ar.stats.get("sched.switches"), ar.wall_s);
+            alt.push((name.to_string(), aexe, ar));
+        }
+    }
     let mut violations: Vec<Confirmed> = Vec::new();
     let mut notes: Vec<String> = Vec::new();
     let replays = root.join("replays");
     let _ = std::fs::create_dir_all(&replays);
 
-    // abnormal worker exits. Exit by signal (segfault, abort) is attributed to the world that
-    // was running; a plain non-zero exit code is a Rust panic in the harness itself.
-    for (k, code, prog) in &r.crashed {
-        if code.is_some() {
-            println!("HARNESS-ERROR: worker {} exited with code {:?} (panic in the harness, see stderr above)", k, code);
-            return 2;
-        }
-        match prog {
-            None => {
-                println!("HARNESS-ERROR: worker {} was killed by a signal with no progress record", k);
-                return 2;
-            }
-            Some(run) => {
-                // does the world crash again, alone, in a fresh process? and with the sequential pass only?
-                let wd2 = workdir.join(format!("crash{}", k));
-                let rr = run_batch(&exe, &prop, seed, 1, 60_000, 1, &wd2, &["--first-override".to_string(), run.to_string()]);
-                if rr.crashed.is_empty() {
-                    println!("HARNESS-ERROR: worker {} crashed at run {} but the world does not crash alone", k, run);
+    let mut unreproducible = 0;
+    let mut seen_clauses: HashSet<String> = HashSet::new();
+    // (label, binary, batch, seed); index 0 is the default build. Extra batches are appended
+    // below when a violation was seen that does not reproduce (see there).
+    let mut extra_batches: Vec<(String, PathBuf, BatchResult, u64)> = Vec::new();
+    let mut retries = 0u64;
+    let mut si = 0usize;
+    loop {
+        let nfixed = 1 + alt.len();
+        if si >= nfixed + extra_batches.len() {
+            // A violation that reproduces neither alone, nor after its process' earlier worlds, nor
+            // in a re-run of its worker slice depends on something the simulator does not own
+            // (allocator addresses under thread timing). It is still a symptom: look for a
+            // reproducible manifestation in up to three more batches from derived seeds.
+            if violations.is_empty() && unreproducible > 0 && retries < 3 {
+                retries += 1;
+                let rseed = seed.wrapping_mul(1_000_033).wrapping_add(retries);
+                println!("{} violation file(s) did not reproduce; extra batch {} (seed {}) to look for a reproducible manifestation", unreproducible, retries, rseed);
+                let rb = run_batch(&exe, &prop, rseed, worlds, budget_ms, nworkers, &workdir.join(format!("retry-{}", retries)), &[]);
+                if rb.harness_error {
+                    println!("HARNESS-ERROR: a worker reported a harness error");
                     return 2;
                 }
-                let rr1 = run_batch(&exe, &prop, seed, 1, 60_000, 1, &wd2, &["--first-override".to_string(), run.to_string(), "--only-pass1".to_string()]);
-                let sequential_too = !rr1.crashed.is_empty();
-                let f = replays.join(format!("{}-{}-{}-abort.txt", prop, seed, run));
-                let _ = std::fs::write(&f, format!("process killed by a signal while executing world seed={} run={} profile={}; crashes in the sequential pass alone: {}; reproduce: iterworld worker --prop {} --seed {} --first {} --count 1\n", seed, run, prop, sequential_too, prop, seed, run));
-                if !sequential_too && prop == "C19" {
-                    violations.push(Confirmed { path: f, property: prop.clone(), clause: "process-abort-only-when-shared".into(), minimised: false });
-                } else {
-                    notes.push(format!("process abort in world run={} (sequential pass alone crashes: {}) - unclaimed C06-class observation, see {}", run, sequential_too, f.display()));
-                    println!("NOTE: process abort in world run={} is not attributable to {} (unclaimed observation); worker {} stopped early", run, prop, k);
+                extra_batches.push((format!("retry{}", retries), exe.clone(), rb, rseed));
+                continue;
+            }
+            break;
+        }
+        let (label, exe, r, seed): (&str, &Path, &BatchResult, u64) = if si == 0 {
+            ("default", exe.as_path(), &r, seed)
+        } else if si < nfixed {
+            let (n, e, b) = &alt[si - 1];
+            (n.as_str(), e.as_path(), b, seed.wrapping_mul(1_000_003).wrapping_add(si as u64))
+        } else {
+            let (n, e, b, sd) = &extra_batches[si - nfixed];
+            (n.as_str(), e.as_path(), b, *sd)
+        };
+        si += 1;
+        let exe = exe.to_path_buf();
+        let suffix = if label == "default" || label.starts_with("retry") { String::new() } else { format!("-{}", label) };
+        // abnormal worker exits. Exit by signal (segfault, abort) is attributed to the world that
+        // was running; a plain non-zero exit code is a Rust panic in the harness itself.
+        for (k, code, prog) in &r.crashed {
+            if code.is_some() {
+                println!("HARNESS-ERROR: worker {} exited with code {:?} (panic in the harness, see stderr above)", k, code);
+                return 2;
+            }
+            match prog {
+                None => {
+                    println!("HARNESS-ERROR: worker {} was killed by a signal with no progress record", k);
+                    return 2;
+                }
+                Some(run) => {
+                    // does the world crash again, alone, in a fresh process? and with the sequential pass only?
+                    let wd2 = workdir.join(format!("crash{}{}", k, suffix));
+                    let rr = run_batch(&exe, &prop, seed, 1, 60_000, 1, &wd2, &["--first-override".to_string(), run.to_string()]);
+                    if rr.crashed.is_empty() {
+                        println!("HARNESS-ERROR: worker {} crashed at run {} but the world does not crash alone", k, run);
+                        return 2;
+                    }
+                    let rr1 = run_batch(&exe, &prop, seed, 1, 60_000, 1, &wd2, &["--first-override".to_string(), run.to_string(), "--only-pass1".to_string()]);
+                    let sequential_too = !rr1.crashed.is_empty();
+                    let f = replays.join(format!("{}-{}-{}{}-abort.txt", prop, seed, run, suffix));
+                    let _ = std::fs::write(&f, format!("process killed by a signal while executing world seed={} run={} profile={} build={}; crashes in the sequential pass alone: {}; reproduce: {} worker --prop {} --seed {} --first {} --count 1\n", seed, run, prop, label, sequential_too, exe.display(), prop, seed, run));
+                    if !sequential_too && prop == "C19" {
+                        violations.push(Confirmed { path: f, property: prop.clone(), clause: "process-abort-only-when-shared".into(), minimised: false });
+                    } else {
+                        notes.push(format!("process abort in world run={} build={} (sequential pass alone crashes: {}) - unclaimed C06-class observation, see {}", run, label, sequential_too, f.display()));
+                        println!("NOTE: process abort in world run={} build={} is not attributable to {} (unclaimed observation); worker {} stopped early", run, label, prop, k);
+                    }
                 }
             }
         }
-    }
 
-    // violations of this property found by workers: confirm + minimise (distinct clauses, at most 3)
-    let mut seen_clauses: HashSet<String> = HashSet::new();
-    let mut unreproducible = 0;
-    for vf in &r.viol_files {
-        let name = vf.file_name().unwrap().to_str().unwrap().to_string();
-        if !name.contains(&format!(".viol-{}-", prop)) {
-            continue;
-        }
-        let j = match std::fs::read_to_string(vf).ok().and_then(|t| json::parse(&t).ok()) {
-            Some(j) => j,
-            None => continue,
-        };
-        let clause = j.get("clause").and_then(|v| v.as_str()).unwrap_or("").to_string();
-        if seen_clauses.contains(&clause) || seen_clauses.len() >= 3 {
-            continue;
-        }
-        let run = j.get("run").and_then(|v| v.as_u64()).unwrap_or(0);
-        let dest = replays.join(format!("{}-{}-{}.json", prop, seed, run));
-        match confirm_and_minimise(&exe, vf, &dest) {
-            Some(c) => {
-                seen_clauses.insert(clause);
-                violations.push(c);
+        // violations of this property found by workers: confirm + minimise (distinct clauses, at most 3)
+        for vf in &r.viol_files {
+            let name = vf.file_name().unwrap().to_str().unwrap().to_string();
+            if !name.contains(&format!(".viol-{}-", prop)) {
+                continue;
             }
-            None => {
-                unreproducible += 1;
+            let j = match std::fs::read_to_string(vf).ok().and_then(|t| json::parse(&t).ok()) {
+                Some(j) => j,
+                None => continue,
+            };
+            let clause = j.get("clause").and_then(|v| v.as_str()).unwrap_or("").to_string();
+            if seen_clauses.contains(&clause) || seen_clauses.len() >= 3 {
+                continue;
+            }
+            let run = j.get("run").and_then(|v| v.as_u64()).unwrap_or(0);
+            let dest = replays.join(format!("{}-{}-{}{}.json", prop, seed, run, suffix));
+            match confirm_and_minimise(&exe, vf, &dest) {
+                Some(c) => {
+                    seen_clauses.insert(clause);
+                    violations.push(c);
+                }
+                None => {
+                    unreproducible += 1;
+                }
             }
         }
     }
@@ -559,6 +692,26 @@ pub fn cmd_drive(args: &[String]) -> i32 {
                 extra.push(("auxiliary".into(), j));
             }
         }
+    }
+    if !alt.is_empty() {
+        extra.push((
+            "build_configuration_strata".into(),
+            J::Arr(
+                alt.iter()
+                    .map(|(n, _, b)| {
+                        J::obj()
+                            .set("build", J::s(n))
+                            .set("worlds", J::u(b.stats.get("evaluations")))
+                            .set("simulated_steps", J::u(b.stats.get("simulated_steps")))
+                            .set("switches", J::u(b.stats.get("sched.switches")))
+                            .set("preempt_same_object", J::u(b.stats.get("probes.preempt_same_regex_object")))
+                            .set("cancel", J::u(b.stats.get("faults.cancel")))
+                            .set("iterator_histories", J::u(b.stats.get("c09.iterator_histories")))
+                            .set("wall_s", J::Num((b.wall_s * 10.0).round() / 10.0))
+                    })
+                    .collect(),
+            ),
+        ));
     }
     extra.push(("seeds".into(), J::obj().set("base_seed", J::u(seed)).set("run_index_range", J::Arr(vec![J::u(0), J::u(r.stats.get("evaluations"))])).set("note", J::s("world i uses splitmix64(seed ^ golden*(i+1)) as root of three independent streams"))));
     if !notes.is_empty() {
